@@ -1328,7 +1328,8 @@ impl<'a, A> Iterator for NamedStrategyActionIter<'a, A> {
 
     fn size_hint(&self) -> (usize, Option<usize>) {
         let len = match &self.iter {
-            ActionType::Data(zip) => zip.len(),
+            // zero probability actions are skipped by `next`
+            ActionType::Data(zip) => zip.clone().filter(|(_, prob)| prob > &&0.0).count(),
             ActionType::Single(once) => once.len(),
         };
         (len, Some(len))
